@@ -333,6 +333,8 @@ class CExec:
         b, comps = self.locate(st, ptr, node)
         if b.const_data is not None:
             return self.const_lookup(b, comps)
+        if self.write_log is not None:
+            self.write_log.append(("r", b, comps, list(st.pc), node))
         return z3.Select(st.mem[b], *comps)
 
     def const_lookup(self, b, comps):
@@ -358,7 +360,7 @@ class CExec:
         val = to_real(val) if b.kind == "real" else to_int(val)
         st.mem[b] = z3.Store(st.mem[b], *comps, val)
         if self.write_log is not None:
-            self.write_log.append((b, comps, list(st.pc), node))
+            self.write_log.append(("w", b, comps, list(st.pc), node))
 
     # ------------------------------------------------------------ globals
     def global_block(self, cf, decl):
@@ -410,6 +412,17 @@ class CExec:
         if k == "IntegerLiteral":
             return z3.IntVal(int(n["value"]))
         if k == "FloatingLiteral":
+            mac = getattr(self.cur_contract, "macros", None)
+            if mac:
+                b = n.get("range", {}).get("begin", {})
+                if "expansionLoc" in b:
+                    e = b["expansionLoc"]
+                    nm = self.cur_file.text[e["offset"]:e["offset"] + e.get("tokLen", 0)]
+                    if nm in mac:
+                        # literal spelled through a macro the contract keeps symbolic (its numeric value is a
+                        # separate obligation of the contract)
+                        self.macro_values[nm] = Fraction(Decimal(n["value"]))
+                        return mac[nm]
             return z3.RealVal(Fraction(Decimal(n["value"])))
         if k == "CharacterLiteral":
             return z3.IntVal(int(n["value"]))
@@ -585,6 +598,10 @@ class CExec:
         if op == "=":
             val = self.rvalue(st, R)
             place = self.lvalue(st, L)
+            if isinstance(val, tuple) and val and val[0] == "malloc":
+                if not isinstance(place, LVar):
+                    raise CheckerError("malloc result stored through memory")
+                val = self.bind_malloc(st, place.name, node_type(L), val)
             self.assign(st, place, val, n)
             return val
         if op == ",":
@@ -1057,6 +1074,8 @@ class CExec:
         else:
             spec = self.cur_contract.loops.get((self.fn_stack[-1][0], ordinal))
         if spec is not None:
+            if getattr(spec, "fill", False):
+                return self.exec_loop_fill(st, n, cond, inc, body, ordinal)
             return self.exec_loop_inv(st, n, cond, inc, body, spec, ordinal)
         # unroll with concrete condition
         results = []
@@ -1230,8 +1249,9 @@ class CExec:
         Vpre = self.make_V(pre_state)
         # establish
         V0 = self.make_V(st, pre=Vpre)
+        extra0 = spec.unfold(V0) if spec.unfold else []
         for lab, e in labelled(spec.invariant(V0), "inv"):
-            self.oblige("establish", st, e, n, label="%s:%s" % (tag, lab))
+            self.oblige("establish", st, e, n, label="%s:%s" % (tag, lab), extra_hyps=extra0)
         # havoc
         mv, mb = self.modset(st, {"kind": "CompoundStmt", "inner": [body] + ([inc] if inc and inc.get("kind") else [])})
         h = st.clone()
@@ -1283,6 +1303,89 @@ class CExec:
                 results.append((x, fl, v))
         return results
 
+    def exec_loop_fill(self, st, n, cond, inc, body, ordinal):
+        """Schema for `for (i = 0; i < N; i++) { a[i] = c; ... }` over the whole flat extent of a block:
+        accepted only if the pattern is matched syntactically and N equals the block's size as a polynomial;
+        the effect is `forall cells: a[cell] == c` (row-major indexing is a bijection onto [0, N))."""
+        from .poly import from_z3 as _p
+        stmts = body.get("inner", []) if body["kind"] == "CompoundStmt" else [body]
+        if cond["kind"] != "BinaryOperator" or cond["opcode"] != "<":
+            raise CheckerError("fill schema: loop condition is not i < N")
+        ivar = self._strip(cond["inner"][0])
+        if ivar["kind"] != "DeclRefExpr":
+            raise CheckerError("fill schema: loop variable")
+        i_id = ivar["referencedDecl"]["id"]
+        if not (inc and inc["kind"] == "UnaryOperator" and inc["opcode"] == "++" and self._strip(inc["inner"][0])["referencedDecl"]["id"] == i_id):
+            raise CheckerError("fill schema: increment is not i++")
+        i0 = simp(Z(st.vars[i_id]))
+        if not (z3.is_int_value(i0) and i0.as_long() == 0):
+            raise CheckerError("fill schema: loop does not start at 0")
+        N = to_int(self.rvalue(st, cond["inner"][1]))
+        tag = "fill%d" % ordinal
+        for s_ in stmts:
+            if not (s_["kind"] == "BinaryOperator" and s_["opcode"] == "="):
+                raise CheckerError("fill schema: body statement is not an assignment")
+            L, Rr = s_["inner"]
+            # L must be base[i] or base[i][const]...
+            chain = []
+            e = self._strip(L)
+            while e["kind"] == "ArraySubscriptExpr":
+                chain.append(self._strip(e["inner"][1]))
+                e = self._strip(e["inner"][0])
+            chain.reverse()
+            if e["kind"] != "DeclRefExpr" or not chain:
+                raise CheckerError("fill schema: target is not an array element")
+            if not (chain[0]["kind"] == "DeclRefExpr" and chain[0]["referencedDecl"]["id"] == i_id):
+                raise CheckerError("fill schema: first subscript is not the loop variable")
+            base = st.vars[e["referencedDecl"]["id"]]
+            if not isinstance(base, Ptr) or base.block is None:
+                raise CheckerError("fill schema: unknown base")
+            rest = [self.const_eval(c) for c in chain[1:]]
+            val = self.rvalue(st, Rr)
+            if isinstance(val, (Ptr,)) or not z3.is_rational_value(simp(to_real(val))) and not z3.is_int_value(simp(Z(val))):
+                raise CheckerError("fill schema: value is not a constant")
+            b = base.block
+            per = sizeof_elems(base.pointee)
+            size = z3.IntVal(1)
+            for d in b.shape:
+                size = size * d
+            if not (simp(Z(base.off)).eq(z3.IntVal(0))):
+                raise CheckerError("fill schema: base pointer is offset")
+            lhs, rhs = _p(simp(N * per)), _p(simp(size))
+            if not (lhs - rhs).is_zero():
+                raise CheckerError("fill schema: N*%d (%s) is not the block size (%s)" % (per, lhs, rhs))
+            # which cells of each group of `per` are written: offset of rest within pointee
+            dims = arr_dims(base.pointee)
+            off = 0
+            for c, d in zip(rest, dims):
+                off = off * d + c
+            if len(rest) != len(dims):
+                raise CheckerError("fill schema: partial subscript")
+            new = b.fresh("@" + tag)
+            idx = [z3.Int("q%d!%s" % (k, tag)) for k in range(len(b.shape))]
+            rng = z3.And(*[z3.And(x >= 0, x < d) for x, d in zip(idx, b.shape)])
+            flat = idx[0]
+            for x, d in zip(idx[1:], b.shape[1:]):
+                flat = flat * d + x
+            v = to_real(val) if b.kind == "real" else to_int(val)
+            if per == 1:
+                hit = z3.BoolVal(True)
+            else:
+                hit = (flat % per == off)
+            st.pc.append(z3.ForAll(idx, z3.Implies(rng, z3.Select(new, *idx) == z3.If(hit, v, z3.Select(st.mem[b], *idx)))))
+            st.mem[b] = new
+            ob = self.sink.add(self.prefix, "fill", [], z3.BoolVal(True), meta={"label": "%s: loop matches the fill schema for %s" % (tag, b.name)})
+            ob.status = "discharged"
+            ob.solver = "syntactic"
+        self.oblige("fill", st, N >= 0, n, label=tag + ": extent is non-negative")
+        st.vars[i_id] = N
+        return [(st, "normal", None)]
+
+    def _strip(self, e):
+        while e["kind"] in ("ParenExpr", "ImplicitCastExpr", "CStyleCastExpr", "ConstantExpr"):
+            e = e["inner"][0]
+        return e
+
     def exec_omp(self, st, n):
         # sequential semantics: run the associated loop; race obligations are produced by omp.py
         def find_for(x):
@@ -1329,6 +1432,7 @@ class CExec:
         self.prefix = "%s:%s%s" % (cf.relpath, contract.func, getattr(contract, "tag", "") or "")
         self.facts = []
         self.write_log = None
+        self.macro_values = getattr(self, "macro_values", {})
         self.loop_ordinals = {}
         self._ids_cache = {}
         self.fn_stack = [(fn["name"], self.ids_of(fn))]
